@@ -9,7 +9,7 @@ SCHED = "E3 stateless DFS over task orders of run_schedule through the fork/join
 HIST = "E1 explicit-state BFS over operation histories on the real World (mc/hist)"
 CHECKS = {
  "C01": ("model_checking", "§2 C01", HIST,
-   "Every operation history up to the stated depth over 9 alphabets (incl. registries of no, exactly 8, 9 and 10 components, and several operations through one Entry handle) is executed on the real World and compared after every operation with a plain map model through the public query API; exhaustive within the bounds reported in the evidence.",
+   "Every operation history up to the stated depth over 9 alphabets (incl. registries of no, exactly 8, 9, 10 and 64 components, and several operations through one Entry handle), from the empty world and from four prepared non-initial states (13 and 16 tables so that the table map grows and rehashes, emptied tables, a free list with several generations), is executed on the real World and compared after every operation with a plain map model through the public query API; exhaustive within the bounds reported in the evidence.",
    "registry S4=(Heap,Zst,Big,Small)+2 resources; depth bounds per alphabet; values abstracted from the state hash; rustc/std/hashbrown/serde trusted"),
  "C02": ("model_checking", "§2 C02", HIST,
    "Same exploration; after every operation every identifier ever issued in that history is re-queried (contains, entry, Entries::entry, stale remove); freshly issued identifiers are compared with the full issued list, across clone/clone_from/serde.",
@@ -21,7 +21,7 @@ CHECKS = {
    "Same exploration under a checking allocator (fixed-address arenas, red zones, layout check on free/realloc, poison on free, no reuse) plus token self-checks on every reference handed out, plus std's unsafe-precondition checks (debug assertions on); the allocator also runs in a grow-in-place mode (odd address salts).  In addition: every Serialize/Deserialize call position of a component returning Err (fault engine), and every operation sequence up to depth 2 (quick) / 3 (thorough) on registries of 0, 2, 4, 8 and 9 components executed under the Miri interpreter (reads outside an allocation, invalid references, leaks at exit).",
    "under the checking allocator out-of-bounds reads landing in mapped memory whose value is never inspected are invisible (the Miri sequences cover them at smaller depth); parallel queries are not run under Miri"),
  "C13": ("model_checking", "§2 C13", HIST,
-   "Same exploration; after every operation the read-only structural dump (hook H1) is audited: slots <-> rows bijection, free list = inactive slots, len, one table per component set, lookup tables consistent, addresses owned by this world.",
+   "Same exploration; after every operation the read-only structural dump (hook H1) is audited: slots <-> rows bijection, free list = inactive slots, len, one table per component set, lookup tables consistent, addresses owned by this world.  Every world returned by deserializing an edited serialization (the C11 engine's inputs) is audited the same way, as returned and after every continuation operation.",
    "audit reads brood's private state through cfg(brood_verif) hook H1"),
  "C15": ("model_checking", "§2 C15", HIST,
    "Same exploration on a world with two resources: both resources are read back after every operation (incl. clone, clone_from, serde round trips, entity ops) and written through get_mut, view_resources and query resource views in different orders; plus a generated grid of every ordered selection and &/&mut assignment of views over a three-resource list through view_resources, query, par_query and run_system; plus every resource-view schedule of the E3 family.",
@@ -33,7 +33,7 @@ CHECKS = {
    "(a) BFS with clone lock-step twins, snapshots, clone_from and swap as operations, the untouched world re-checked after every operation; (b) every ordered pair (src,dst) of a reachable state set: dst.clone_from(src) / src.clone(), contents, equality (clone), audits, address disjointness, then every operation of a 12-op alphabet on either side with the other side re-checked, then both drop orders.",
    "state set for pairs bounded as reported; == demanded of clone() only (clone_from keeps emptied tables)"),
  "C16": ("model_checking", "§2 C16", HIST + " (pair mode)",
-   "Every ordered pair of a reachable state set (values normalised to a function of identifier and component): reflexive, symmetric, equal implies same contents; every state against 12 single perturbations (value, resource, live set, component set): unequal in both directions. a clone and three round trips of every state must compare equal both ways.",
+   "Every ordered pair of a reachable state set, twice: with values normalised to a function of (identifier, component), and with values normalised to a function of (table, row, component) so that only the identifiers can tell two worlds apart: reflexive, symmetric, equal implies same contents; every state against 12 single perturbations (value, resource, live set, component set): unequal in both directions. a clone and three round trips of every state must compare equal both ways.",
    "state set bounded as reported"),
  "C07": ("model_checking", "§2 C07", SCHED,
    "Every schedule type of a generated family (ordered pairs/triples of view kinds, filter-disjoint writers, resource views, entry views, ParSystems, longer schedules) x 86 worlds x 2 address salts x every permutation of every fork/join nest, executed on the real run_schedule through the fork/join seam; per-task run count = 1 and final world, resources and every system's own state equal those of run_system/run_par_system applied one by one in declared order.",
@@ -49,12 +49,12 @@ CHECKS = {
    "declared lengths bounded by input size; serde_assert/serde_json are the environment; leaks on error paths are reported, not violations"),
  "C17": ("fault_enumeration", "§2 C17", FAULT,
    "For every (base world, operation that calls user code, callback kind, call index k below the count observed in the unfaulted run): a panic is armed at exactly that call, the operation is run, then each of 6 aftermaths (drop; read everything; clear; remove every identifier; Entry::add through every identifier; Entry::remove + entry query through every identifier) is judged by the drop ledger and the checking allocator; process aborts from std's unsafe-precondition checks are attributed to the armed case by a supervising parent. 41 operations incl. remove, clear, Entry::add/remove, clone, clone_from (6 sources), drop, (de)serialization in 3 encodings, ==, Debug, run_system, run_par_system, run_schedule.",
-   "second panics never armed; leaks allowed; three (operation, callback) pairs are open known findings (known_findings.json)"),
+   "second panics never armed; leaks allowed; open known findings (known_findings.json) are matched per call site: clone_from/Clone where the destination is neither identical to the source nor a row-prefix of it, clone_from/Drop per table class of the destroyed value"),
  "C14": ("exploration", "§2 C14", "E6 generated program families type- and borrow-checked by rustc against the current brood rlib (tools/progs.py)",
    "302 generated programs in 7 families (every view-kind pair on one component in Views!/entry queries/par queries; iterator vs entry views; entry vs entry views; resource view pairs in 3 APIs; repeated single-entity access; components/resources outside the registry in 15 APIs; 30 thread-crossing programs with Rc/Cell payloads incl. schedules), each must-reject program paired with a conflict-free twin that must compile; the verdict of a small reference model of Rust's aliasing and Send/Sync rules is compared with rustc's verdict.",
    "bounded-exhaustive enumeration of a program space with the compiler as transition function; says nothing outside the families; 6 programs of the entries-requery family are open known findings"),
  "C18": ("exploration", "§2 C18", "generated programs (mc/dup) + E6",
-   "All 120 duplicate-position registries of length 2..9 plus the 8 duplicate-free ones through 6 constructors (new, with_resources, default, Deserialize in 3 encodings): must panic / must return; all 120 column-length tuples in {0,1,2}^k (k=1..4): Batch::new returns iff equal, extend then stores rows and the structure audit holds; Batch::new_unchecked requires unsafe. The space stated in the property is finite and enumerated completely.",
+   "All 120 duplicate-position registries of length 2..9 plus the 8 duplicate-free ones through 9 constructors (new, with_resources, default, Deserialize in 3 encodings of an empty and of a populated world): must panic / must return; all 120 column-length tuples in {0,1,2}^k (k=1..4): Batch::new returns iff equal, extend then stores rows and the structure audit holds; Batch::new_unchecked requires unsafe. The space stated in the property is finite and enumerated completely.",
    "components are distinct nominal types; TypeId-based duplicate detection trusted to be what it is"),
  "C03": ("exploration", "§2 C03", GRID,
    "Generated query instantiations: view kind per component x identifier position x view order x filter expression (quick: covering subset, thorough: full product with all orders and 11 filters), each evaluated on every world of a catalogue (all states reachable within depth 3/4 of the shape alphabet) in four traversal modes (next() with size_hint bracket check before every call, fold, k x next() then fold), plus World::entry(id).query for every identifier, plus query-time Entries with every (declared, requested) entry-view kind pair (thorough: the full 4913-combination product); oracle = the reference model's evaluation of filter and views, written values read back.",
